@@ -14,6 +14,8 @@ FiberClauses(F) ==
       \* words stored: coordinates (C) or mask words (B), occupancy entries, value entries of a leaf fiber (child handles of an interior fiber are not pinned)
       words == (CASE F.fmt = "C" -> Len(F.coords) [] F.fmt = "B" -> CeilDiv(Len(F.coords), 32) [] OTHER -> 0) + Len(F.occ) + (IF F.leaf = 1 THEN F.npay ELSE 0)
   IN << <<"P:C20:scan", F.scan_exc = "ok" /\ scanC = elems /\ (F.leaf = 1 => \A k \in 1..Len(F.scan) : F.scan[k][3] = F.pays[k])>>,
+        \* the same scan with every fiber of the rank in progress at once delivers the same elements (each fiber scans through its OWN handle state)
+        <<"P:C20:scan-independent", F.scan_exc = "ok" => F.scan2 = F.scan>>,
         <<"P:C20:lookup", F.fmt = "C" => \A k \in 1..Len(F.lookups) : F.lookups[k][2] = LookupC(F.coords, F.lookups[k][1])>>,
         <<"P:C20:size", F.size_exc = "ok" /\ (F.leaf = 1 => F.size = words) /\ (F.leaf = 0 => (F.size = words \/ F.size = words + F.npay))>> >>
 
